@@ -102,7 +102,8 @@ def real_denotation(c: bytes) -> float:
             return sign * math.inf
     if f & 0xC0 == 0x40:
         return {0x40: math.inf, 0x41: -math.inf, 0x42: math.nan, 0x43: -0.0}[f]
-    return float(c[1:].decode("ascii").strip())
+    # ISO 6093: leading spaces allowed, the decimal mark is a full stop or a comma
+    return float(c[1:].decode("ascii").lstrip(" ").replace(",", "."))
 
 
 def denote(val):
